@@ -1086,7 +1086,7 @@ func isByteSlice(t types.Type) bool {
 
 func byteEditingPkg(path string) bool {
 	switch path {
-	case "bytes", "slices", "sort", "encoding/binary", "strconv", "unicode/utf8":
+	case "bytes", "slices", "sort", "encoding/binary", "encoding/base64", "encoding/base32", "encoding/hex", "strconv", "unicode/utf8":
 		return true
 	}
 	return false
